@@ -720,7 +720,7 @@ func TestCallerBuffersUntouched(t *testing.T) {
 				p = q
 			}
 		}
-		api := rapid.SampledFrom([]string{"WriteMessage", "WriteClientMessage", "WriteClientText", "WriteClientBinary", "WriteServerMessage",
+		api := rapid.SampledFrom([]string{"WriteMessage", "WriteClientMessage", "WriteClientText", "WriteClientBinary", "WriteServerMessage", "WriteMessage/close",
 			"Writer.WriteThrough", "Writer.Write+scribble+Flush", "CipherWriter.Write", "MaskFrame", "MaskFrameWith", "UnmaskFrame"}).Draw(t, "api")
 		client := rapid.Bool().Draw(t, "client")
 		state := ws.StateServerSide
@@ -756,6 +756,22 @@ func TestCallerBuffersUntouched(t *testing.T) {
 			return out
 		}
 		switch api {
+		case "WriteMessage/close":
+			// a close body the caller built or is echoing (any status code, reserved ones included: what goes on
+			// the wire is the caller's business here, its slice is not the library's to edit)
+			code := rapid.SampledFrom([]int{1000, 1001, 1005, 1006, 1015, 3000, 0}).Draw(t, "code")
+			if n > 123 {
+				n = 123
+			}
+			orig = append([]byte{byte(code >> 8), byte(code)}, orig[:n]...)
+			p = append(make([]byte, 0, cap(p)+2), orig...)
+			if err := wsutil.WriteMessage(rec, state, ws.OpClose, p); err != nil && rec.FailAt < 0 {
+				t.Fatal(err)
+			}
+			if !bytes.Equal(p, orig) {
+				t.Fatalf("WriteMessage(OpClose) modified the caller's close body: %x… -> %x…", head(orig), head(p))
+			}
+			return
 		case "WriteMessage":
 			if err := wsutil.WriteMessage(rec, state, ws.OpBinary, p); err != nil && rec.FailAt < 0 {
 				t.Fatal(err)
@@ -980,6 +996,51 @@ func TestCallerSuppliedWriterBuffers(t *testing.T) {
 		if !bytes.Equal(full, want) {
 			t.Fatalf("%s over a caller-supplied buffer (len %d cap %d, client=%v, flush disabled=%v, ops %v): after the caller took the buffer back, later unrelated library writes changed it — the library kept or pooled the caller's buffer: %x… -> %x…",
 				kind, length, capacity, client, noFlush, trace, head(want), head(full))
+		}
+	})
+}
+
+// TestParsersLeaveTheirArgumentAlone: an option handed to the permessage-deflate
+// parameter parser or negotiator (taken from a Handshake the caller holds, or
+// pointing into the caller's request header) is read-only for the library,
+// whatever the verdict on it.
+func TestParsersLeaveTheirArgumentAlone(t *testing.T) {
+	hx.Check(t, 2, func(t *rapid.T) {
+		names := []string{"client_max_window_bits", "Client_Max_Window_Bits", "SERVER_NO_CONTEXT_TAKEOVER", "server_max_window_bits", "Server_max_window_bits", "x-Foo", "client_no_context_takeover"}
+		values := []string{"", "10", "15", "8", "1", "abc"}
+		header := []byte(rapid.SampledFrom([]string{"permessage-deflate", "Permessage-Deflate", "x-webkit-deflate-frame"}).Draw(t, "name"))
+		opt := httphead.Option{Name: header[:len(header):len(header)]}
+		var backing [][]byte
+		for i := rapid.IntRange(0, 3).Draw(t, "nparams"); i > 0; i-- {
+			k := []byte(rapid.SampledFrom(names).Draw(t, "pname"))
+			v := []byte(rapid.SampledFrom(values).Draw(t, "pvalue"))
+			if len(v) == 0 {
+				v = nil
+			}
+			opt.Parameters.Set(k, v)
+			backing = append(backing, k, v)
+		}
+		before := renderOption(opt)
+		var snap [][]byte
+		for _, b := range backing {
+			snap = append(snap, append([]byte(nil), b...))
+		}
+		var p wsflate.Parameters
+		perr := p.Parse(opt)
+		e := wsflate.Extension{Parameters: wsflate.Parameters{ServerNoContextTakeover: rapid.Bool().Draw(t, "snct")}}
+		_, nerr := e.Negotiate(opt)
+		hx.Eval()
+		hx.Class(fmt.Sprintf("parse-err=%v/negotiate-err=%v", perr != nil, nerr != nil))
+		if strings.ToLower(before) != before {
+			hx.NonTrivial(hx.Hash("parsearg", before), func() interface{} { return map[string]interface{}{"option": before} })
+		}
+		if after := renderOption(opt); after != before {
+			t.Fatalf("Parameters.Parse / Extension.Negotiate rewrote the option they were given: %q -> %q", before, after)
+		}
+		for i, b := range backing {
+			if !bytes.Equal(b, snap[i]) {
+				t.Fatalf("Parameters.Parse / Extension.Negotiate rewrote the caller's bytes behind the option: %q -> %q", snap[i], b)
+			}
 		}
 	})
 }
